@@ -4,7 +4,7 @@ import vlib
 
 META = {
     "category": "proof",
-    "text": "Lean theorem rc_roundtrip: for every operation list (adaptive probability bits in any contexts + direct bits) the bytes of the C-style range encoder (rc_shift_low cache/cache_size carry logic, normalisation, 5-byte flush) decode, with the decoder cores of the model decoder, to exactly the encoded bits, first byte 0x00, code = 0 at the end, any trailing bytes untouched (three-layer proof: exact number V(st), V(shift_low st) = 256*V(st) under the interval invariant, decoder coupling invariant). Symbol coder and LZMA2 chunker are executable models. Tie: (a) the REAL encoders (easy/stream/buffer/alone/raw/MicroLZMA/MT, chains with delta+BCJ, preset dictionaries, random slicing, flushes, match-finder offset bias so that normalize() fires) round-trip through the REAL decoders; (b) with the symbol-trace hook the parser's decisions are checked against the data by the model (Describes) and the model's symbol coder + range coder + LZMA2 chunker must reproduce the C bytes EXACTLY; the model decoder decodes the same payloads; the real rc_encode/rc_shift_low/rc_encode_dummy are run against the model on random operation strings; constants, state machine, dist slots, literal contexts, probability update and rc_shift_low boundary states are regenerated from the source and bridged by decide.",
+    "text": "Lean theorem rc_roundtrip: for every operation list (adaptive probability bits in any contexts + direct bits) the bytes of the C-style range encoder (rc_shift_low cache/cache_size carry logic, normalisation, 5-byte flush) decode, with the decoder cores of the model decoder, to exactly the encoded bits, first byte 0x00, code = 0 at the end, any trailing bytes untouched (three-layer proof: exact number V(st), V(shift_low st) = 256*V(st) under the interval invariant, decoder coupling invariant). Symbol coder and LZMA2 chunker are executable models. Tie: (a) the REAL encoders (easy/stream/buffer/alone/raw/MicroLZMA/MT, chains with delta+BCJ, preset dictionaries, random slicing, flushes, match-finder offset bias so that normalize() fires) round-trip through the REAL decoders; (b) with the symbol-trace hook the parser's decisions are checked against the data by the model (Describes) and the model's symbol coder + range coder + LZMA2 chunker must reproduce the C bytes EXACTLY; the model decoder decodes the same payloads; the real rc_encode/rc_shift_low/rc_encode_dummy are run against the model on random operation strings; constants, state machine, dist slots, literal contexts, probability update and rc_shift_low boundary states are regenerated from the source and bridged by decide. The encoder-side LZMA2 chunk-closing limits (uncompressed target, compressed limit) are parameters of the chunker model, cut out of the source and evaluated by the compiler on every run; the chunker theorems hold for all limits and a bridge checks that today's values are inside the format's range, so a retune regenerates instead of breaking the tie.",
     "note": "Trusted: Lean kernel + propext/Classical.choice/Quot.sound; the probe that prints Gen/C01.lean; the harness; the C compiler. Not proved: that the C parser (match finders + optimum) always emits a valid description of the data (checked per run on every traced case, and by the round trip); symbol-level and LZMA2-level round-trip theorems are stated in Props/C01.lean as far as proved. The container layers (.xz/.lzma headers, checks, filters) are covered relationally here and by C02/C15. END TO END (Props/C01EndToEnd.lean, namespace XzVerif.C01E2E): the payload contract of C02's container theorems is discharged for the concrete LZMA2/LZMA1 + delta/BCJ models (payload_contract_std_on, uncomp_contract_std, xz_roundtrip_std / _buffer / _mt, alone_roundtrip_std: encoder model then decoder model returns the input, every supported Check); the parser remains abstract under its contract (the executable chunker accepts its trace = the Describes check), which the H2 hook checks per run. ALL INPUTS (Props/C01EndToEndAll.lean): that contract is PROVED for every input for two concrete parsers — all literals, and a run parser that emits matches — (chunker_total, literalParser_accepts, runParser_accepts), so xz_roundtrip_std_literal / _run / *_stateless and c02_hypotheses_discharged_literal have no parser hypothesis; liblzma's own parser stays a per-run check.",
     "technique": "Lean 4 proof over an executable model + regenerated tables + differential correspondence (exact bytes via symbol trace, relational round trip)",
 }
